@@ -46,6 +46,8 @@ PROGRAMS = [
     # __future__ import next to a capitalised module, a relative-looking order trap for merged sorting
     "from __future__ import annotations\nimport Pq\nfrom pa import f\nprint(Pq.zf(1), f(2))\n",
     "from __future__ import division\nfrom Pq import ZK\nimport pa\nprint(ZK / 2, pa.K)\n",
+    # D43: a __future__ import whose name is rebound by a later import of the same block
+    "from __future__ import annotations\nfrom pa import K as annotations\ndef fn(x: Undefined9 = 1):\n    return x\nprint(fn(), annotations)\n",
     # string annotation / f-string uses
     "from pa import C\ndef ann(x: 'C') -> 'C':\n    return x\nprint(ann(1), f'{C().m(1)}')\n",
 ]
